@@ -84,7 +84,7 @@ def sampleAtTime (t : QTime) (rate : Nat) : Int := roundHalfEven (t.num * rate) 
 /-- `min(max(i, 0), n)`: a sample index clamped into `[0, n]` -/
 def clampSample (i : Int) (n : Nat) : Nat := min i.toNat n
 
-/-- `Wav._getIndexAtTime` (as repaired, commit 300c9d2):
+/-- `Wav._getIndexAtTime` (as repaired, commit 3f424d1):
 `sampleIndex = round(startTime * self.frameRate); numSamples = len(self.frames) // self.sampleWidth;
 min(max(sampleIndex, 0), numSamples) * self.sampleWidth` -/
 def indexAtTime (t : QTime) (rate width nsamples : Nat) : Int :=
@@ -194,7 +194,7 @@ def replaceSegmentRaw (wv : Wav) (s e : QTime) (g : List UInt8) : Wav :=
   (wv.deleteSegmentRaw s e).insert s g
 def getSubwavRaw (wv : Wav) (s e : QTime) : Wav := { wv with frames := wv.getFramesRaw s e }
 
-/-- `_validateTimeRange(startTime, endTime)` (commit 0a07868): `if startTime > endTime: raise ArgumentError` -/
+/-- `_validateTimeRange(startTime, endTime)` (commit 906b45b): `if startTime > endTime: raise ArgumentError` -/
 def validateTimeRange (s e : QTime) : Except AErr Unit :=
   if e < s then .error .ArgumentError else .ok ()
 
@@ -277,7 +277,7 @@ def readAt (f : WavFile) (pos n : Int) : Except AErr (List UInt8) :=
 def duration (f : WavFile) : QTime := ⟨f.nframes, f.rate⟩
 end WavFile
 
-/-- `readFramesAtTime(audiofile, startTime, endTime)` (as repaired, commits fedc16f, 300c9d2):
+/-- `readFramesAtTime(audiofile, startTime, endTime)` (as repaired, commits fedc16f, 3f424d1):
 `startFrame = min(max(round(frameRate * startTime), 0), nframes)`, `endFrame` likewise;
 `setpos(startFrame); readframes(max(endFrame - startFrame, 0))` -/
 def readFramesAtTime (f : WavFile) (s e : QTime) : Except AErr (List UInt8) :=
